@@ -428,8 +428,7 @@ class PKey:
             encrypted, and ``password`` is ``None``
         :raises: `.SSHException` -- if the key file is invalid
         """
-        key = cls(filename=filename, password=password)
-        return key
+        return cls._load_private_key(filename=filename, password=password)
 
     @classmethod
     def from_private_key(cls, file_obj, password=None):
@@ -449,8 +448,26 @@ class PKey:
             if the private key file is encrypted, and ``password`` is ``None``
         :raises: `.SSHException` -- if the key file is invalid
         """
-        key = cls(file_obj=file_obj, password=password)
-        return key
+        return cls._load_private_key(file_obj=file_obj, password=password)
+
+    @classmethod
+    def _load_private_key(cls, **kwargs):
+        # Key files are untrusted input: whatever a codec, a number check or
+        # a crypto backend has to say about damaged contents (bad base64/hex,
+        # non-UTF-8 bytes, wrong lengths, inconsistent numbers, ...) means
+        # "this is not a valid key file", which callers are promised to see
+        # as SSHException. Errors reading the file itself (OSError) and the
+        # SSHException family (incl. PasswordRequiredException) pass through.
+        try:
+            return cls(**kwargs)
+        except (SSHException, OSError):
+            raise
+        except Exception as e:
+            raise SSHException(
+                "not a valid private key file ({}: {})".format(
+                    type(e).__name__, e
+                )
+            )
 
     def write_private_key_file(self, filename, password=None):
         """
